@@ -251,6 +251,19 @@ pub fn run(run: &mut Run, args: &Args) {
         if trycast_cmp {
             run.count("shape:try-cast-compared-with-literal");
         }
+        let inlist_case = {
+            let mut hit = false;
+            let _ = q.map_exprs(&mut |e: Expr| {
+                if matches!(&e, Expr::In(..)) && crate::c33::inlist_const_case(&e) {
+                    hit = true;
+                }
+                e
+            });
+            hit
+        };
+        if inlist_case {
+            run.count("shape:in-list-with-case-element");
+        }
         let notin_null = notin_list_with_null(&q);
         if notin_null {
             run.count("shape:not-in-list-with-null-literal");
@@ -359,6 +372,8 @@ pub fn run(run: &mut Run, args: &Args) {
                 "query-notin-unaware-shape"
             } else if trycast_cmp {
                 "query-trycast-literal-cmp"
+            } else if inlist_case {
+                "query-inlist-case-element"
             } else if notin_null {
                 "query-notin-list-with-null"
             } else if derived_cnt {
